@@ -27,7 +27,14 @@ def r1_alphabet(ctx, m) -> None:
     dom = g.dominators()
     for n, s in rets:
         # admitted classes on this path: the guard that dominates the return
-        tests = [g.stmt[d] for d in dom[n] if g.kind.get(d) == "test"]
+        tests = []
+        for d in dom[n]:
+            if g.kind.get(d) != "test":
+                continue
+            t_succ = [x for x in g.succ[d] if g.label.get((d, x)) == "T"]
+            # the return lies on the true branch: unreachable once the true edge is cut
+            if t_succ and n not in g.reachable(0, avoid_edges=frozenset({(d, t_succ[0])})):
+                tests.append(g.stmt[d])
         guard = " and ".join(u(t) for t in tests)
         admits_int = f"isinstance({p}, int)" in guard or f"isinstance({p}, (int, bool))" in guard or f"isinstance({p}, (bool, int))" in guard
         in01 = any(x in guard.replace(" ", "") for x in (f"{p}in{{0,1}}", f"{p}in(0,1)", f"{p}in[0,1]", f"{p}in{{1,0}}")) or \
